@@ -9,6 +9,7 @@ import (
 	"path/filepath"
 	"strings"
 	"sync"
+	"sync/atomic"
 	"time"
 
 	"github.com/high-moctane/mocrelay"
@@ -206,9 +207,17 @@ func C15(run *core.Run) {
 	// pair races: an event and the deletion request of its author that names it, inserted by two
 	// goroutines at the same moment while a third one lists; whatever the order, the listing never
 	// shows both, and the flags must be explainable
-	npair := 2 * nh
-	for i := 0; i < npair; i++ {
-		tr := pairRace(r, fmt.Sprintf("pair-%d", i))
+	// pair races: many fast trials; every trial is a complete history, the first ones and every one whose
+	// final listing shows both racing events are handed to TLC (StoreLin gives the verdict)
+	npair, ntrial := 2*nh, 40*nh
+	kept := 0
+	for i := 0; i < ntrial; i++ {
+		tr, both := pairRace(r, fmt.Sprintf("pair-%d", i))
+		run.Add("pair_race_trials", 1)
+		if i >= npair && !both || kept > npair+40 {
+			continue
+		}
+		kept++
 		traces = append(traces, tr)
 		run.Add("operations", int64((len(tr.Lines)-1)/2))
 		distinct.Add(fmt.Sprint(tr.Lines))
@@ -327,7 +336,7 @@ func C15(run *core.Run) {
 		"linearizability is decided per recorded small history; large mixes are only checked for the invariant clause")
 }
 
-func pairRace(r *rand.Rand, name string) tv.Trace {
+func pairRace(r *rand.Rand, name string) (tv.Trace, bool) {
 	conc := abs.NewConc()
 	cap := 3
 	x := abs.Event{ID: "x", Author: "a", Kind: []int64{1, 0, 30000}[r.Intn(3)], TS: 2}
@@ -335,6 +344,9 @@ func pairRace(r *rand.Rand, name string) tv.Trace {
 		x.Tags = []abs.Tag{{Name: "d", Val: "x", N: 2}}
 	}
 	k := abs.Event{ID: "k", Author: "a", Kind: 5, TS: 3, Tags: []abs.Tag{{Name: "e", Val: "x", N: 2}}}
+	if x.Kind == 30000 && r.Intn(2) == 0 {
+		k.Tags = []abs.Tag{{Name: "a", Val: "30000:a:x", N: 2}} // the request names the address
+	}
 	findFs := []abs.Filter{{}}
 	if r.Intn(3) == 0 {
 		// variant: two versions of one address inserted at the same moment, listed by a query with two
@@ -350,11 +362,16 @@ func pairRace(r *rand.Rand, name string) tv.Trace {
 	log(map[string]any{"op": "reset", "cap": cap})
 	start := make(chan struct{})
 	var wg sync.WaitGroup
+	var ready atomic.Int32
 	add := func(id string, e abs.Event) {
 		defer wg.Done()
 		ce := conc.Event(e, "c")
 		<-start
 		log(map[string]any{"op": "call", "id": name + "/" + id, "kind": "add", "e": e, "fs": []abs.Filter{}, "shape": "call add"})
+		// both adders have logged their call: now enter Add at the same instant
+		ready.Add(1)
+		for t0 := time.Now(); ready.Load() < 2 && time.Since(t0) < 5*time.Millisecond; {
+		}
 		added := cache.Add(ce)
 		log(map[string]any{"op": "ret", "id": name + "/" + id, "added": added, "res": []string{}, "n": 0, "shape": "ret add (event raced with its deletion request)"})
 	}
@@ -377,6 +394,7 @@ func pairRace(r *rand.Rand, name string) tv.Trace {
 	id := name + "/final"
 	log(map[string]any{"op": "call", "id": id, "kind": "find", "e": dummyEv, "fs": abs.NormFilters([]abs.Filter{{}}), "shape": "call find"})
 	res := cache.Find(matchAll)
-	log(map[string]any{"op": "ret", "id": id, "added": false, "res": conc.Labels(res), "n": 0, "shape": "ret final listing (event raced with its deletion request)"})
-	return tr
+	final := conc.Labels(res)
+	log(map[string]any{"op": "ret", "id": id, "added": false, "res": final, "n": 0, "shape": "ret final listing (event raced with its deletion request)"})
+	return tr, len(final) >= 2
 }
